@@ -136,7 +136,8 @@ def run_property(pid, tier, seed, jobs):
         print("KNOWN-FINDING: property=%s %s [%s]" % (pid, kf.get("what", ""), name))
     for name, o, key in violations:
         f = o["failed"][0]
-        path = os.path.join(replay_dir, "%s_%s.json" % (pid, abs(hash(name)) % 10**8))
+        import hashlib
+        path = os.path.join(replay_dir, "%s_%s.json" % (pid, hashlib.sha1(name.encode()).hexdigest()[:10]))
         rep = None
         try:
             from pyvc.replay import try_replay
